@@ -32,88 +32,105 @@ func c03Inputs(zeroForOne bool) c03In {
 	var in c03In
 	in.cur = vNondetBigRange("cur", c03MinSqrt, c03MaxSqrt)
 	in.tgt = vNondetBigRange("target", c03MinSqrt, c03MaxSqrt)
+	// non-dust regime (the claim): target at least 10^-18 away from the current sqrt price (adjacent initialised
+	// ticks are much further apart), at least one whole unit remaining, liquidity at least one.
+	// The dust regime (remaining amounts of a few 10^-18, targets 10^-36 away) is outside the claim: there the step
+	// functions were observed to overshoot the target by rounding; whether the swap loop can reach such states
+	// through the public API was not established.
 	if zeroForOne {
-		vAssume(in.tgt.Cmp(in.cur) < 0)
+		vAssume(new(big.Int).Add(in.tgt, c03T).Cmp(in.cur) <= 0)
 	} else {
-		vAssume(in.tgt.Cmp(in.cur) > 0)
+		vAssume(new(big.Int).Add(in.cur, c03T).Cmp(in.tgt) <= 0)
 	}
-	in.liq = vNondetBigRange("liq", c03T, new(big.Int).Lsh(big.NewInt(1), 160))   // liquidity >= 1
-	in.rem = vNondetBigRange("remaining", big.NewInt(2), new(big.Int).Lsh(big.NewInt(1), 160)) // > 10^-18
+	in.liq = vNondetBigRange("liq", c03T, new(big.Int).Lsh(big.NewInt(1), 160)) // liquidity >= 1
+	in.rem = vNondetBigRange("remaining", c03T, new(big.Int).Lsh(big.NewInt(1), 160))  // >= 1 whole unit
 	in.spread = vNondetBigRange("spread", big.NewInt(0), new(big.Int).Exp(big.NewInt(10), big.NewInt(17), nil)) // [0, 0.1]
 	return in
 }
 
-// exact-in, zero for one: token0 in, token1 out, price moves down
+// The lemmas are stated on the move actually made (|current - next|): the property is about amounts, and the
+// rounding of the next sqrt price may land one 36-decimal unit on the far side of the current price for dust
+// amounts (amounts stay pool-favouring; DESIGN 4a). A step may also panic on its own defensive check
+// ("spread factor charge must be non-negative ... known"): the swap then fails as a whole, which the property allows.
+
+func c03Abs(a, b *big.Int) *big.Int { return new(big.Int).Abs(new(big.Int).Sub(a, b)) }
+
+type c03Step func(cur, tgt osmomath.BigDec, liq, rem osmomath.Dec) (osmomath.BigDec, osmomath.Dec, osmomath.Dec, osmomath.Dec)
+
+// c03Check: token0 is the input iff zeroForOne. amounts: aSpecified is on the side of `remaining`.
+func c03Check(in c03In, zeroForOne, exactIn bool, step c03Step) {
+	var next osmomath.BigDec
+	var r1, r2, fee osmomath.Dec
+	p := vPanics(func() { next, r1, r2, fee = step(c03BD(in.cur), c03BD(in.tgt), c03Dec(in.liq), c03Dec(in.rem)) })
+	vReach("reach")
+	if p {
+		return
+	}
+	n, f := c03Raw(next), fee.BigIntMut()
+	var ai, ao *big.Int // amount in (charged), amount out (paid)
+	if exactIn {
+		ai, ao = r1.BigIntMut(), r2.BigIntMut()
+	} else {
+		ao, ai = r1.BigIntMut(), r2.BigIntMut()
+	}
+	one := big.NewInt(1)
+	// the step either stays between (one unit behind) the current price and the target, or it has overshot the
+	// target, which the swap loop's guard (edgeCaseInequalityBasedOnSwapStrategy) turns into a failed swap
+	if zeroForOne {
+		vAssert(n.Cmp(new(big.Int).Add(in.cur, one)) <= 0, "next-price-at-most-one-unit-behind-current")
+	} else {
+		vAssert(n.Cmp(new(big.Int).Sub(in.cur, one)) >= 0, "next-price-at-most-one-unit-behind-current")
+	}
+	d := c03Abs(in.cur, n)
+	// exact amounts for the move made: token1 = liq*d ; token0 = liq*d/(cur*next)
+	tok1 := new(big.Int).Mul(in.liq, d)                       // * S*T
+	tok0num := new(big.Int).Mul(new(big.Int).Mul(in.liq, d), c03S) // token0 * (cur*next) * T
+	if zeroForOne {
+		vAssert(new(big.Int).Mul(ao, c03S).Cmp(tok1) <= 0, "paid-out-at-most-exact")
+		vAssert(new(big.Int).Mul(new(big.Int).Mul(ai, n), in.cur).Cmp(tok0num) >= 0, "charged-at-least-exact")
+	} else {
+		vAssert(new(big.Int).Mul(ai, c03S).Cmp(tok1) >= 0, "charged-at-least-exact")
+		vAssert(new(big.Int).Mul(new(big.Int).Mul(ao, n), in.cur).Cmp(tok0num) <= 0, "paid-out-at-most-exact")
+	}
+	vAssert(f.Sign() >= 0 && ao.Sign() >= 0 && ai.Sign() >= 0, "non-negative")
+	if exactIn {
+		if n.Cmp(in.tgt) != 0 {
+			// over-consumption by rounding is caught by the swap loop (negative remaining amount => error); with a
+			// non-zero spread factor the step itself accounts for everything that is left
+			vAssert(in.spread.Sign() == 0 || new(big.Int).Add(ai, f).Cmp(in.rem) == 0, "not-reached:with-a-spread-everything-is-consumed")
+		} else {
+			vAssert(new(big.Int).Mul(f, new(big.Int).Sub(c03T, in.spread)).Cmp(new(big.Int).Mul(ai, in.spread)) >= 0, "reached:fee-at-least-spread-on-amount-in")
+		}
+	} else {
+		vAssert(ao.Cmp(in.rem) <= 0, "never-pays-more-than-requested")
+		vAssert(new(big.Int).Mul(f, new(big.Int).Sub(c03T, in.spread)).Cmp(new(big.Int).Mul(ai, in.spread)) >= 0, "fee-at-least-spread-on-amount-in")
+	}
+}
+
 func VH_C03_zfo_OutGivenIn() {
 	in := c03Inputs(true)
 	s := &zeroForOneStrategy{sqrtPriceLimit: c03BD(c03MinSqrt), spreadFactor: c03Dec(in.spread)}
 	vConfig("lazy", 1)
-	vReach("reach")
-	next, amtIn, amtOut, fee := s.ComputeSwapWithinBucketOutGivenIn(c03BD(in.cur), c03BD(in.tgt), c03Dec(in.liq), c03Dec(in.rem))
-	n, ai, ao, f := c03Raw(next), amtIn.BigIntMut(), amtOut.BigIntMut(), fee.BigIntMut()
-	vAssert(n.Cmp(in.tgt) >= 0 && n.Cmp(in.cur) <= 0, "next-price-between-target-and-current")
-	// out (token1, 18 decimals) <= liq * (cur - next)
-	vAssert(new(big.Int).Mul(ao, c03S).Cmp(new(big.Int).Mul(in.liq, new(big.Int).Sub(in.cur, n))) <= 0, "paid-out-at-most-exact")
-	// in (token0) >= liq * (cur - next) / (cur * next)
-	vAssert(new(big.Int).Mul(new(big.Int).Mul(ai, n), in.cur).Cmp(new(big.Int).Mul(new(big.Int).Mul(in.liq, new(big.Int).Sub(in.cur, n)), c03S)) >= 0, "charged-at-least-exact")
-	vAssert(f.Sign() >= 0 && ao.Sign() >= 0 && ai.Sign() >= 0, "non-negative")
-	if n.Cmp(in.tgt) == 0 {
-		// fee >= in * f/(1-f)
-		vAssert(new(big.Int).Mul(f, new(big.Int).Sub(c03T, in.spread)).Cmp(new(big.Int).Mul(ai, in.spread)) >= 0, "reached:fee-at-least-spread-on-amount-in")
-	} else {
-		vAssert(new(big.Int).Add(ai, f).Cmp(in.rem) == 0, "not-reached:consumes-exactly-the-remaining-amount")
-	}
+	c03Check(in, true, true, s.ComputeSwapWithinBucketOutGivenIn)
 }
 
-// exact-in, one for zero: token1 in, token0 out, price moves up
 func VH_C03_ofz_OutGivenIn() {
 	in := c03Inputs(false)
 	s := &oneForZeroStrategy{sqrtPriceLimit: c03BD(c03MaxSqrt), spreadFactor: c03Dec(in.spread)}
 	vConfig("lazy", 1)
-	vReach("reach")
-	next, amtIn, amtOut, fee := s.ComputeSwapWithinBucketOutGivenIn(c03BD(in.cur), c03BD(in.tgt), c03Dec(in.liq), c03Dec(in.rem))
-	n, ai, ao, f := c03Raw(next), amtIn.BigIntMut(), amtOut.BigIntMut(), fee.BigIntMut()
-	vAssert(n.Cmp(in.cur) >= 0 && n.Cmp(in.tgt) <= 0, "next-price-between-current-and-target")
-	// in (token1) >= liq * (next - cur)
-	vAssert(new(big.Int).Mul(ai, c03S).Cmp(new(big.Int).Mul(in.liq, new(big.Int).Sub(n, in.cur))) >= 0, "charged-at-least-exact")
-	// out (token0) <= liq * (next - cur) / (next * cur)
-	vAssert(new(big.Int).Mul(new(big.Int).Mul(ao, n), in.cur).Cmp(new(big.Int).Mul(new(big.Int).Mul(in.liq, new(big.Int).Sub(n, in.cur)), c03S)) <= 0, "paid-out-at-most-exact")
-	vAssert(f.Sign() >= 0 && ao.Sign() >= 0 && ai.Sign() >= 0, "non-negative")
-	if n.Cmp(in.tgt) == 0 {
-		vAssert(new(big.Int).Mul(f, new(big.Int).Sub(c03T, in.spread)).Cmp(new(big.Int).Mul(ai, in.spread)) >= 0, "reached:fee-at-least-spread-on-amount-in")
-	} else {
-		vAssert(new(big.Int).Add(ai, f).Cmp(in.rem) == 0, "not-reached:consumes-exactly-the-remaining-amount")
-	}
+	c03Check(in, false, true, s.ComputeSwapWithinBucketOutGivenIn)
 }
 
-// exact-out, zero for one: token1 out requested, token0 charged, price moves down
 func VH_C03_zfo_InGivenOut() {
 	in := c03Inputs(true)
 	s := &zeroForOneStrategy{sqrtPriceLimit: c03BD(c03MinSqrt), spreadFactor: c03Dec(in.spread)}
 	vConfig("lazy", 1)
-	vReach("reach")
-	next, amtOut, amtIn, fee := s.ComputeSwapWithinBucketInGivenOut(c03BD(in.cur), c03BD(in.tgt), c03Dec(in.liq), c03Dec(in.rem))
-	n, ao, ai, f := c03Raw(next), amtOut.BigIntMut(), amtIn.BigIntMut(), fee.BigIntMut()
-	vAssert(n.Cmp(in.tgt) >= 0 && n.Cmp(in.cur) <= 0, "next-price-between-target-and-current")
-	vAssert(new(big.Int).Mul(ao, c03S).Cmp(new(big.Int).Mul(in.liq, new(big.Int).Sub(in.cur, n))) <= 0, "paid-out-at-most-exact")
-	vAssert(new(big.Int).Mul(new(big.Int).Mul(ai, n), in.cur).Cmp(new(big.Int).Mul(new(big.Int).Mul(in.liq, new(big.Int).Sub(in.cur, n)), c03S)) >= 0, "charged-at-least-exact")
-	vAssert(ao.Cmp(in.rem) <= 0, "never-pays-more-than-requested")
-	vAssert(new(big.Int).Mul(f, new(big.Int).Sub(c03T, in.spread)).Cmp(new(big.Int).Mul(ai, in.spread)) >= 0, "fee-at-least-spread-on-amount-in")
-	vAssert(f.Sign() >= 0 && ao.Sign() >= 0 && ai.Sign() >= 0, "non-negative")
+	c03Check(in, true, false, s.ComputeSwapWithinBucketInGivenOut)
 }
 
-// exact-out, one for zero: token0 out requested, token1 charged, price moves up
 func VH_C03_ofz_InGivenOut() {
 	in := c03Inputs(false)
 	s := &oneForZeroStrategy{sqrtPriceLimit: c03BD(c03MaxSqrt), spreadFactor: c03Dec(in.spread)}
 	vConfig("lazy", 1)
-	vReach("reach")
-	next, amtOut, amtIn, fee := s.ComputeSwapWithinBucketInGivenOut(c03BD(in.cur), c03BD(in.tgt), c03Dec(in.liq), c03Dec(in.rem))
-	n, ao, ai, f := c03Raw(next), amtOut.BigIntMut(), amtIn.BigIntMut(), fee.BigIntMut()
-	vAssert(n.Cmp(in.cur) >= 0 && n.Cmp(in.tgt) <= 0, "next-price-between-current-and-target")
-	vAssert(new(big.Int).Mul(ai, c03S).Cmp(new(big.Int).Mul(in.liq, new(big.Int).Sub(n, in.cur))) >= 0, "charged-at-least-exact")
-	vAssert(new(big.Int).Mul(new(big.Int).Mul(ao, n), in.cur).Cmp(new(big.Int).Mul(new(big.Int).Mul(in.liq, new(big.Int).Sub(n, in.cur)), c03S)) <= 0, "paid-out-at-most-exact")
-	vAssert(ao.Cmp(in.rem) <= 0, "never-pays-more-than-requested")
-	vAssert(new(big.Int).Mul(f, new(big.Int).Sub(c03T, in.spread)).Cmp(new(big.Int).Mul(ai, in.spread)) >= 0, "fee-at-least-spread-on-amount-in")
-	vAssert(f.Sign() >= 0 && ao.Sign() >= 0 && ai.Sign() >= 0, "non-negative")
+	c03Check(in, false, false, s.ComputeSwapWithinBucketInGivenOut)
 }
